@@ -269,7 +269,7 @@ func checkC08(c *Case, s *Stats) error {
 	}
 	var st *trie.SlimTrie
 	var berr error
-	err := guard("NewSlimTrie", func() error {
+	err := guardHang("C08", c, s, "NewSlimTrie", func() error {
 		st, berr = c.build()
 		return nil
 	})
